@@ -1,0 +1,31 @@
+//go:build verif
+// +build verif
+
+package verifhook
+
+import "sync"
+
+var (
+	mu sync.RWMutex
+	cb func(name string)
+)
+
+// Set installs the callback invoked at every Point (nil removes it).
+func Set(f func(name string)) {
+	mu.Lock()
+	cb = f
+	mu.Unlock()
+}
+
+// Point is called by instrumented code between critical sections.
+func Point(name string) {
+	mu.RLock()
+	f := cb
+	mu.RUnlock()
+	if f != nil {
+		f(name)
+	}
+}
+
+// Enabled reports whether the hooks are compiled in.
+const Enabled = true
